@@ -244,10 +244,11 @@ def blankval_case(d, blank, order, part):
     paths = []
     for k, (x0, y0, x1, y1, nb) in enumerate(rects):
         dsub = M[y0:y1, x0:x1].copy()
-        dsub[:nb, :] = blank
-        dsub[-nb:, :] = blank
-        dsub[:, :nb] = blank
-        dsub[:, -nb:] = blank
+        bv = float(blank)
+        dsub[:nb, :] = bv
+        dsub[-nb:, :] = bv
+        dsub[:, :nb] = bv
+        dsub[:, -nb:] = bv
         ww, dd = flip(sub_wcs(wcs, x0, y0), dsub)
         p = os.path.join(d, "bv%d.fits" % k)
         fits.PrimaryHDU(dd, header=ww.to_header()).writeto(p, overwrite=True)
@@ -258,7 +259,14 @@ def blankval_case(d, blank, order, part):
     try:
         with quiet():
             ref_root, ref_b = reference_route(d, A, wcs, "fits")
-            coll = collection.load([paths[i] for i in order], blankval=blank)
+            if isinstance(blank, str):
+                # the command-line route: --blankval arrives as text and is parsed by the collection loader
+                import argparse
+
+                ns = argparse.Namespace(hdu_index=None, wcs_key=None, blankval=blank)
+                coll = collection.CollectionLoader.create_from_args(ns).load_paths([paths[i] for i in order])
+            else:
+                coll = collection.load([paths[i] for i in order], blankval=blank)
             pio = PyramidIO(root, default_format="fits")
             b = Builder(pio)
             proc = MultiTanProcessor(coll)
@@ -404,7 +412,7 @@ def run(tier, seed):
                         if tier == "quick" and size[0] == 518 and not ("nan" in dname or dname == "contained"):
                             continue
                         cases.append((size, dname, rects, bottom_up, order, fmt))
-    for blank in (0.0, -999.0, 0):
+    for blank in (0.0, -999.0, 0, "0", "-999", "-999.0", "1e3"):
         for order in ((0, 1), (1, 0)):
             cases.append(("blankval", blank, order))
     cases = rng_order(cases, seed)
@@ -416,6 +424,8 @@ def run(tier, seed):
     if tier == "thorough":
         three = [(0, 0, 90, 60, 0), (80, 0, 170, 60, 3), (160, 0, 240, 60, 0)]
         cfgs += [MultiTanTree(size=(240, 60), rects=three, bottom_up=True, W=2), MultiTanTree(size=(240, 60), rects=three_small, bottom_up="mixed", W=2, io_points=False), MultiTanTree(size=(200, 60), rects=two, bottom_up=False, W=3), MultiTanTree(size=(300, 60), rects=[(0, 0, 160, 60, 0), (150, 0, 300, 60, 0)], bottom_up=True, W=2)]
+    # the same stage fed from FITS files through toasty's collection loader with a blank value
+    cfgs.append(stages.MultiTan(nimg=3, W=2, from_files=True, max_deviations=2 if tier == "quick" else 4))
     for c in cfgs:
         c.seed = seed
     jobs = [("e1", c) for c in cfgs] + jobs
